@@ -60,12 +60,12 @@ func (logicFamily) Corpus(string) []*hc.Case {
 	p := logicParams{Opener: "hystrix", N: 10, Dur: 10 * sec, Pct: 50, Vol: 3, Sleep: sec, Half: 1, Req: 2}
 	// a transition, then a full window: the outcomes from before must neither count nor be subtracted twice
 	a := []logicOp{run("KFailure", 0), run("KFailure", 1), run("KFailure", 2), {K: "shouldopen", T: 2}, {K: "circ", Kind: "Opened", T: 2},
-		{K: "circ", Kind: "Closed", T: sec}, run("KFailure", 10*sec + sec/2), run("KFailure", 10*sec + sec/2), {K: "shouldopen", T: 10*sec + sec/2},
-		run("KFailure", 10*sec + sec/2), {K: "shouldopen", T: 10*sec + sec/2}}
+		{K: "circ", Kind: "Closed", T: sec}, run("KFailure", 10*sec+sec/2), run("KFailure", 10*sec+sec/2), {K: "shouldopen", T: 10*sec + sec/2},
+		run("KFailure", 10*sec+sec/2), {K: "shouldopen", T: 10*sec + sec/2}}
 	// thresholds changed live: the new values decide at the next question, the counters stay
 	b := []logicOp{run("KFailure", 0), run("KSuccess", 0), {K: "shouldopen", T: 0}, {K: "setopener", A: 50, B: 2}, {K: "shouldopen", T: 0}, {K: "setopener", A: 51, B: 2}, {K: "shouldopen", T: 0},
 		{K: "circ", Kind: "Opened", T: 5}, {K: "allow", T: 5 + sec}, {K: "fire", A: 0}, {K: "setcloser", A: 3 * sec, B: 2, C: 1}, {K: "allow", T: 5 + sec}, {K: "allow", T: 6 + sec}, {K: "allow", T: 7 + sec},
-		run("KSuccess", 7 + sec), {K: "shouldclose"}}
+		run("KSuccess", 7+sec), {K: "shouldclose"}}
 	pc := logicParams{Opener: "consec", Thr: 3, Sleep: sec, Half: 1, Req: 1}
 	// the streak passes a threshold that is lowered afterwards
 	c := []logicOp{run("KFailure", 0), run("KFailure", 0), {K: "shouldopen"}, {K: "setthr", A: 2}, {K: "shouldopen"}, run("KBadRequest", 0), run("KInterrupt", 0), {K: "shouldopen"}, run("KSuccess", 0), {K: "shouldopen"}}
@@ -73,7 +73,11 @@ func (logicFamily) Corpus(string) []*hc.Case {
 	p3 := logicParams{Opener: "consec", Thr: 3, Sleep: sec, Half: 3, Req: 5}
 	d := []logicOp{{K: "circ", Kind: "Opened", T: 0}, {K: "fire", A: 0}, {K: "allow", T: sec}, {K: "allow", T: sec}, {K: "setcloser", A: sec, B: 4, C: 5}, {K: "allow", T: sec}, {K: "allow", T: sec}, {K: "allow", T: sec},
 		{K: "fire", A: 1}, {K: "allow", T: 2 * sec}, {K: "setcloser", A: sec, B: 2, C: 5}, {K: "allow", T: 2 * sec}, {K: "allow", T: 2 * sec}, {K: "setcloser", A: sec, B: 3, C: 5}, {K: "allow", T: 2 * sec}, {K: "allow", T: 2 * sec}}
-	return []*hc.Case{logicCase(p, a), logicCase(p, b), logicCase(pc, c), logicCase(p3, d)}
+	// outcomes of every counting kind recorded WHILE OPEN (failed and timed-out probes) are forgotten at the close
+	p4 := logicParams{Opener: "hystrix", N: 10, Dur: 10 * sec, Pct: 50, Vol: 4, Sleep: sec, Half: 1, Req: 1}
+	e := []logicOp{{K: "circ", Kind: "Opened", T: 0}, run("KTimeout", sec), run("KFailure", 2*sec), run("KTimeout", 2*sec), run("KSuccess", 3*sec), {K: "circ", Kind: "Closed", T: 3 * sec},
+		run("KSuccess", 3*sec), run("KSuccess", 3*sec), run("KSuccess", 3*sec), run("KFailure", 4*sec), {K: "shouldopen", T: 4 * sec}, run("KTimeout", 4*sec), {K: "shouldopen", T: 4 * sec}}
+	return []*hc.Case{logicCase(p, a), logicCase(p, b), logicCase(pc, c), logicCase(p3, d), logicCase(p4, e)}
 }
 
 func (logicFamily) Gen(r *rand.Rand, i int, tier string) *hc.Case {
